@@ -23,6 +23,7 @@ type Promise struct {
 	cutParent *Promise
 	repeat    bool
 	recover   func(error) *Promise
+	exitOf    *Promise
 }
 
 // Delay delays an execution of k.
@@ -71,6 +72,15 @@ func catch(recover func(error) *Promise, k func(context.Context) *Promise) *Prom
 	return &Promise{
 		delayed: []func(context.Context) *Promise{k},
 		recover: recover,
+	}
+}
+
+// exit returns a promise that marks the exit of the goal of the catching promise p: errors raised by k are not
+// recovered by p until the execution backtracks into the goal.
+func exit(p *Promise, k func(context.Context) *Promise) *Promise {
+	return &Promise{
+		delayed: []func(context.Context) *Promise{k},
+		exitOf:  p,
 	}
 }
 
@@ -135,6 +145,15 @@ func panicError(r interface{}) error {
 	return fmt.Errorf("panic: %v", r)
 }
 
+func (p *Promise) oneOf(ps []*Promise) bool {
+	for _, q := range ps {
+		if p == q {
+			return true
+		}
+	}
+	return false
+}
+
 type promiseStack []*Promise
 
 func (s *promiseStack) pop() *Promise {
@@ -157,9 +176,14 @@ func (s *promiseStack) popUntil(p *Promise) {
 func (s *promiseStack) recover(err error) error {
 	// look for an ancestor promise with a recovering function that is applicable to the error.
 	verifBefore := len(*s)
+	var exited []*Promise
 	for len(*s) > 0 {
 		pop := s.pop()
-		if pop.recover == nil {
+		if pop.exitOf != nil {
+			exited = append(exited, pop.exitOf)
+			continue
+		}
+		if pop.recover == nil || pop.oneOf(exited) {
 			continue
 		}
 		if q := pop.recover(err); q != nil {
